@@ -1,6 +1,7 @@
 import GT.Base.JsonQ
 import GT.Base.QSqrt
 import GT.Model.GramSchmidt
+import GT.Lemmas.GramSchmidt
 import GT.Model.Diag
 import GT.Model.Arcs
 import GT.Model.LinAlgQ
@@ -38,6 +39,20 @@ def gsOp (j : Json) : R Json := do
   let out ← gsGuard F rows
   return Json.mkObj [("rows", ofDVecs out), ("norms", ofQArr (out.map fun v => bil F v.toFn v.toFn).toArray)]
 
+/-- `indefiniteOrthogonalize rsqrt F` with Gram–Schmidt run on array-backed rows (what `c18.ortho` answers) -/
+def orthoD {n : ℕ} (F : Matrix (Fin n) (Fin n) ℚ) (out : List (DVec n ℚ)) : List (DVec n ℚ) :=
+  (normalizeRows rsqrt F (out.map DVec.toFn)).map DVec.ofFn
+
+/-- the driver normalises the rows `gsD` produced; `gsD_toFn` makes that `indefiniteOrthogonalize` -/
+theorem orthoD_gsD_eq {n : ℕ} (F : Matrix (Fin n) (Fin n) ℚ) (rows : List (DVec n ℚ)) :
+    (orthoD F (gsD F rows)).map DVec.toFn = indefiniteOrthogonalize rsqrt F (rows.map DVec.toFn) := by
+  simp [orthoD, indefiniteOrthogonalize, gsD_toFn, Function.comp_def]
+
+/-- `orthogonal_complement(vectors, F, normalize='form')` is the same computation on the kernel basis `ker` -/
+theorem orthoD_gsD_eq_complement {n : ℕ} (F : Matrix (Fin n) (Fin n) ℚ) (ker : List (DVec n ℚ)) :
+    (orthoD F (gsD F ker)).map DVec.toFn = orthogonalComplement rsqrt F (ker.map DVec.toFn) :=
+  orthoD_gsD_eq F ker
+
 /-- `indefinite_orthogonalize` with exact roots (only when every |square-norm| is a rational square) -/
 def orthoOp (j : Json) : R Json := do
   let ⟨n, F⟩ ← formOf j "form"
@@ -45,7 +60,7 @@ def orthoOp (j : Json) : R Json := do
   let out ← gsGuard F rows
   for v in out do
     if !isSq |bil F v.toFn v.toFn| then throw "irrational-root"
-  return ofDVecs ((normalizeRows rsqrt F (out.map DVec.toFn)).map DVec.ofFn)
+  return ofDVecs (orthoD F out)
 
 /-- `find_isometry` given the kernel basis the implementation obtained: `gs partial ++ gs ker`
 unnormalised with square-norms -/
@@ -57,6 +72,20 @@ def findIsoOp (j : Json) : R Json := do
   let o2 ← gsGuard F k
   let out := o1 ++ o2
   return Json.mkObj [("rows", ofDVecs out), ("norms", ofQArr (out.map fun v => bil F v.toFn v.toFn).toArray)]
+
+/-- `utils.make_orientation_preserving(M)` on the square matrix whose rows are given (exact determinant) -/
+def makeOrientedOp (j : Json) : R Json := do
+  let a ← qArr2 (← field j "rows")
+  match h : a.size with
+  | 0 => throw "empty"
+  | m + 1 =>
+    if a.any (fun r => r.size ≠ m + 1) then throw "not square"
+    let rows : List (Fin (m + 1) → ℚ) := a.toList.map fun r => (⟨r⟩ : DVec (m + 1) ℚ).toFn
+    have hl : rows.length = m + 1 := by simp [rows, h]
+    let M := DMat.ofMatrix (rowsMatrix rows hl)
+    let d := M.toMatrix.det
+    let O := DMat.ofMatrix (makeOriented M.toMatrix)
+    return Json.mkObj [("M", ofQArr2 O.a), ("det", ofQ d)]
 
 /-- exact Gram data of rows `M` w.r.t. `F`: max |off-diagonal|, max ||diag|−1|, signs, and the
 cross products with an optional second family `P` -/
@@ -233,5 +262,5 @@ def ops : List (String × Handler) :=
    ("c18.order", orderOp), ("c18.diag_residual", diagResidualOp), ("c18.diagonalize", diagonalizeOp),
    ("c18.svd_kernel", svdKernelOp), ("c18.kernel_residual", kernelResidualOp), ("c18.sphere", sphereOp),
    ("c18.short_arc", shortArcOp), ("c18.right_to_left", rightToLeftOp), ("c18.arc_include", arcIncludeOp),
-   ("c18.circle_angle", circleAngleOp)]
+   ("c18.circle_angle", circleAngleOp), ("c18.make_oriented", makeOrientedOp)]
 end GT.Driver.C18
